@@ -117,6 +117,10 @@ Section Det.
         end) props;
     ROk (direct ++ flat)%list.
 
+  (* variant_tuple (value.rs, fix 15ce314): a one-element tuple payload is the tuple itself, `V((x,))` *)
+  Definition variant_tuple (es : list expr) : list expr :=
+    match es with [x] => [ETuple [x]] | _ => es end.
+
   (* variant.ident_name.as_ref().unwrap() *)
   Definition var_ident (var : variant) : res ustring :=
     match v_ident var with [] => RPanic | i => ROk i end.
@@ -139,7 +143,7 @@ Section Det.
             | VSimple => RErr
             | VItem t => do oe <- optional (rec t x);
                          ROk (EVarTuple name i (match oe with Some e => [e] | None => [] end))
-            | VTuple ts => do es <- o_tuple ts x; ROk (EVarTuple name i es)
+            | VTuple ts => do es <- o_tuple ts x; ROk (EVarTuple name i (variant_tuple es))
             | VStruct ps => do fs <- o_struct_props ps x; ROk (EVarStruct name i fs)
             end
         | _ => RErr
@@ -166,7 +170,7 @@ Section Det.
     do i <- var_ident var;
     match v_det var, cv with
     | VSimple, None => ROk (EVarUnit name i)
-    | VTuple ts, Some c => do es <- o_tuple ts c; ROk (EVarTuple name i es)
+    | VTuple ts, Some c => do es <- o_tuple ts c; ROk (EVarTuple name i (variant_tuple es))
     | VStruct ps, Some c => do fs <- o_struct_props ps c; ROk (EVarStruct name i fs)
     | _, _ => RErr
     end.
@@ -177,7 +181,7 @@ Section Det.
         match v_det var with
         | VSimple => match v with JNull => ROk (EVarUnit name i) | _ => RErr end
         | VItem t => do e <- rec t v; ROk (EVarTuple name i [e])
-        | VTuple ts => do es <- o_tuple ts v; ROk (EVarTuple name i es)
+        | VTuple ts => do es <- o_tuple ts v; ROk (EVarTuple name i (variant_tuple es))
         | VStruct ps => do fs <- o_struct_props ps v; ROk (EVarStruct name i fs)
         end) vs.
 
@@ -493,6 +497,7 @@ Fixpoint eval_expr (T : space) (e : expr) {struct e} : option json :=
           | Some vr, Some l =>
               match v_det vr, l with
               | VItem _, [x] => wrap_variant tag (v_raw vr) (Some x)
+              | VTuple [_], [x] => wrap_variant tag (v_raw vr) (Some x)   (* the single field IS the tuple *)
               | VTuple _, _ => wrap_variant tag (v_raw vr) (Some (JArr l))
               | _, _ => None
               end
